@@ -191,3 +191,18 @@ CHECKS["C17"] = dict(
     note=("Bounds: 900 sampled programs quick / 10000 thorough; bodies return / call_next / recurse over a nested list; the program quantifier is enumerated, "
           "only the argument hierarchy is symbolic. extend_super on a non-first definition and priorities inside class bodies are outside the claim."),
 )
+
+CHECKS["C18"] = dict(
+    engine="symx", category="model_checking", design_ref="DESIGN.md §6 C18",
+    technique="the crash point (index of the executed ovld source line at which an exception is injected through sys.monitoring) is a solver integer enumerated to exhaustion with path-condition blocking (z3), optionally jointly with a symbolic hierarchy; differential oracle against a cleanly built function",
+    text=("For first-use build, rebuild after a registration on a used function and cache-miss resolution (method sets with call_next continuations, a "
+          "value-dependent method and a recursive container method), an InjectedFault is raised when the kappa-th executed source line of ovld or of "
+          "its generated code is about to run; kappa is a solver variable whose every value (and 'beyond the end') is one path class. Afterwards calls "
+          "through the public function object and through resolve() must equal those of a cleanly built function with the complete method set. "
+          "Natural failures (conflicting argument names, call_next not called, unreadable source at every registration position; a user class "
+          "predicate raising on its j-th invocation) must keep failing with a configuration error and the function must work normally once the "
+          "offender is unregistered."),
+    note=("Bounds: one fault per run, between source lines; quick: 7 scenarios x ~1000-2500 crash points on a fixed hierarchy (exhaustive), 9 natural-failure "
+          "shapes, 2 hook shapes; thorough: 18 scenarios with the hierarchy symbolic as well. Here the solver is the bounded model checker's "
+          "bookkeeper (finite domain), as DESIGN.md states. Two defects found by this check were repaired (3a088b7, c16687c)."),
+)
